@@ -24,7 +24,7 @@ FUNCTIONS = ["FullscreenWindow.render_to_terminal", "BaseWindow.on_terminal_size
              "blessed.Terminal.move/clear_eol/clear_bol/hide_cursor/normal_cursor (real capability strings)"]
 BOUNDS = ("terminal sizes (1,2), (2,2) quick; + (2,3), (3,3) thorough; optional resize to a different size in {(1,2),(2,2),(2,3),(3,2)}; "
           "arrays of height 0..h+1, rows of length 0..w+1 given as str / 1-run / 2-run FmtStr (both formatted, or formatted then plain), as list or FSArray; first array from "
-          "a reduced set, second array: quick every array of at most one row, every two-row array of plain rows of length 0 / w / w+1 (all ordered pairs of adjacent shapes) plus a seeded sample of the others, thorough all; every row character and every "
+          "a reduced set, second array: quick every array of at most one row, every two-row array of plain rows of length 0 / w / w+1 (all ordered pairs of adjacent shapes) plus a seeded sample of the others, thorough a seeded sample of 150 per instance; every row character and every "
           "junk cell symbolic (any character: neither the window nor the model inspects them), cursor target any on-screen cell, hide_cursor both")
 STUBS = ["terminal model (xterm pending-wrap semantics) as output device; rows are handed over as FmtStr through the public "
          "fmtstr_to_stdout_xform() extension point (assumes C01: str(f) displays f's cells)", "window.t.height/width come "
@@ -74,7 +74,7 @@ def _arrays(h, w, reduced):
 
 def instances(tier, seed):
     out = []
-    T = 200 if tier == "quick" else 900
+    T = 200 if tier == "quick" else 600
     sizes = [(1, 2), (2, 2)] if tier == "quick" else [(1, 2), (2, 2), (2, 3), (3, 3)]
     for (h, w) in sizes:
         nA = len(_arrays(h, w, True))
@@ -93,7 +93,10 @@ def instances(tier, seed):
                                     "fn": "render2", "timeout": T, "cost": h * w,
                                     "params": {"h": h, "w": w, "A": ai, "resize": resize, "wrap": wrap, "seed": seed,
                                                "jpos": [(ai + (1 if resize else 0)) % h, (ai // 2) % w],     # where the junk left the cursor
-                                               "hide": hide, "limit": 10 if tier == "quick" else 100000}})
+                                               "hide": hide, "limit": 10 if tier == "quick" else 150}})
+    if tier != "quick":
+        # thorough = the quick instances + the deeper ones (larger terminals, both cursor modes, 150 second arrays each)
+        out = instances("quick", seed) + out
     return out
 
 
